@@ -393,6 +393,10 @@ def run(data, prop, manual_ops, overrun_ops):
                     st.max += delta
                     if st.reserved:
                         r.labels.add('iws-ack-with-reserved-stream')
+                elif st.closed_how == 'end':
+                    # the peer ended its side, ours is still open: the library still holds the stream and
+                    # keeps adjusting its window, which matters for the self-overflow exemption above
+                    st.win += delta
             m.iws = v
             absorb(o)
         elif op in ('peer-rst', 'local-rst'):
